@@ -72,6 +72,8 @@ type Proc struct {
 	w       *bufio.Writer
 	Tool    string // "", compile, asm, link
 	Pkg     string
+
+	streaming bool // between Cmd.Start and Cmd.Wait: reads a child's pipe
 }
 
 // Client is one top-level garble command.
@@ -656,6 +658,23 @@ func (s *Sim) quiescent() bool {
 		return false // compile, asm, link, git, a garble process that has not registered yet...
 	}
 	for _, pid := range goProcs {
+		// A child whose output the parent streams (Cmd.Start ... Cmd.Wait) blocks on
+		// its pipe as soon as the parent parks at a gated call in between: it then
+		// waits for us, through its parent, and must not hold up the release.
+		streamedBy := false
+		for _, pi := range procs {
+			if pi.pid == pid {
+				if rp, ok := s.byPid[pi.ppid]; ok && rp.streaming && rp.state == stParked {
+					streamedBy = true
+				}
+			}
+		}
+		if streamedBy {
+			if !goIdleRelaxed(pid, 3*time.Millisecond) {
+				return false
+			}
+			continue
+		}
 		if len(children[pid]) == 0 {
 			return false // a go command without children is working, not waiting
 		}
@@ -726,7 +745,11 @@ func (s *Sim) apply(enabled []*Proc, idx int, act Action) error {
 		s.dirty = true
 	case "exec-start":
 		p.state = stRunning
+		p.streaming = true
 		s.dirty = true
+	case "exec-done":
+		p.streaming = false
+		p.state = stRunning
 	default:
 		p.state = stRunning
 	}
